@@ -18,7 +18,8 @@ BOUNDS = ("Baked recipe programs of 1-2 steps (quick: all 1-step programs and ev
           "sets: default ('plates'), every single used object, the set of all used objects, and one pair. Oracle: "
           "ledger of every object's contents at each step boundary from the eager interpreter of C08, plus the "
           "amounts discarded by remove steps. Output rounding modelled: |reported - ledger| <= 0.5*10^-digits. "
-          "Lite rounding model.")
+          "Lite rounding model. Also: a partial remove from a recipe-created container right after its creation; a second recipe "
+          "on the objects a first, already queried, recipe returned.")
 OUTSIDE = ("IEEE rounding; recipes whose bake is refused (C08 shows bake refuses iff the eager fold does); enzymes in the "
            "cast; programs longer than 3.")
 ASSUMPTIONS = ["Recipe._rounding_noise (the library's own bound on float rounding noise, the tolerance of get_substance_used's net-decrease test) is 0 in the real-number model, where roundings at internal precision are the identity; native companion runs use the real one",
@@ -66,6 +67,17 @@ def cells(tier, seed):
             out.append({'id': f"prog/{','.join(prog)}/k{k}/qd", 'fn': 'h_used', 'round': 'lite', 'max_paths': 400,
                         'cost': 2 ** len(prog), 'gens': 160,
                         'params': {'prog': prog, 'split': k, 'queries': [['DMSO', 'umol'], ['water', 'mg'], ['NaCl', 'umol']]}})
+    # a partial remove from a container the recipe created, right after its creation (the solutes stay behind)
+    for prog in (['solW', 'rmSw'], ['sol2', 'rmSw'], ['solA', 'rmSw']):
+        for k in ((1,) if tier == 'quick' else range(0, len(prog) + 1)):
+            out.append({'id': f"prog/{','.join(prog)}/k{k}/qs", 'fn': 'h_used', 'round': 'lite', 'max_paths': 400,
+                        'cost': 4, 'gens': 160,
+                        'params': {'prog': prog, 'split': k, 'queries': [['NaCl', 'umol'], ['water', 'mg']] +
+                                   ([['DMSO', 'umol']] if 'sol2' in prog else [])}})
+    # history across recipes: the objects a first recipe returned (and was queried about) go into a second recipe
+    for unit in (['uL'] if tier == 'quick' else ['uL', 'mg', 'umol']):
+        out.append({'id': f"two-recipes/{unit}", 'fn': 'h_two_recipes', 'round': 'lite', 'max_paths': 100, 'cost': 4,
+                    'gens': 160, 'params': {'unit': unit}})
     # pinned witnesses: amounts whose floating-point sums over the wells do not cancel exactly (source and destination both
     # among the destinations: net change 0, which the library used to report as a net decrease)
     for pi, pin in enumerate(PINS):
@@ -128,6 +140,67 @@ def run_recipe(h, prog, split):
     objects = dict(cast.declared)
     objects.update(placeholders)
     return rec, cast, objects, states, discards
+
+
+def h_two_recipes(h):
+    """recipe 1: A -> row 1 of P, baked and queried; recipe 2 on the objects recipe 1 returned: A -> row 1 of P again and
+    column 1 of P -> B.  Every query of recipe 2 is about recipe 2's own steps."""
+    cast = Cast(h)
+    lib = cast.lib
+    Recipe = h.env.Recipe
+    C, Plate = h.env.Container, h.env.Plate
+    unit = h.p['unit']
+    prefix, base = split_unit(unit)
+    prec = h.env.config.precisions.get(unit, h.env.config.precisions['default'])
+    half = Fr(1, 2 * 10**prec)
+    q0, q1, q2 = h.real('q0', Fr(1, 10), 100), h.real('q1', Fr(1, 10), 100), h.real('q2', Fr(1, 10), 50)
+    A, B, P = cast.A, cast.B, cast.P
+    r1 = Recipe().uses(A, P)
+    r1.transfer(A, P[1, :], f"{q0} uL")
+    try:
+        res1 = r1.bake()
+        A1e, P1e = Plate.transfer(A, P[1, :], f"{q0} uL")
+    except ValueError:
+        h.outcome = 'bake-refused'      # (bake refuses iff the eager fold does: C08)
+        return
+    h.outcome = 'ok'
+
+    def check(rec, region, s, dests, names, before, after):
+        ledger = 0
+        for n in names:
+            ledger = ledger + amount_in(after[n], s) - amount_in(before[n], s)
+        truth = lib.amount(s, ledger, base) / PREFIX[prefix]
+        try:
+            got = rec.get_substance_used(s, unit=unit, destinations=dests)
+        except ValueError as e:
+            h.require('raises-only-on-net-decrease', h.lt(ledger, 0, h.rs(h.ulp * 100)), region, detail=str(e))
+            return
+        h.require('no-answer-on-net-decrease', h.ge(ledger, 0, h.rs(h.ulp * 100)), region)
+        h.require('reported==ledger', h.eq(got, truth, half + h.rs(h.ulp * 10**4)), region,
+                  detail=f"{s.name} in {unit}, destinations {names}")
+
+    for sname in ('water', 'NaCl'):
+        check(r1, f"recipe1/{sname}/P", lib[sname], [P], ['P'], {'P': P}, {'P': P1e})
+        check(r1, f"recipe1/{sname}/default", lib[sname], 'plates', ['P'], {'P': P}, {'P': P1e})
+    A1, P1 = res1[A.name], res1['P']
+    r2 = Recipe().uses(A1, P1, B)
+    r2.transfer(A1, P1[1, :], f"{q1} uL")
+    r2.transfer(P1[:, 1], B, f"{q2} uL")
+    try:
+        r2.bake()
+        A2e, P2e = Plate.transfer(A1e, P1e[1, :], f"{q1} uL")
+        P3e, B3e = C.transfer(P2e[:, 1], B, f"{q2} uL")
+    except ValueError:
+        h.outcome = 'bake-refused'
+        return
+    before = {'A': A1e, 'P': P1e, 'B': B}
+    after = {'A': A2e, 'P': P3e, 'B': B3e}
+    for sname in ('water', 'NaCl'):
+        s = lib[sname]
+        check(r2, f"recipe2/{sname}/P", s, [P1], ['P'], before, after)
+        check(r2, f"recipe2/{sname}/default", s, 'plates', ['P'], before, after)
+        check(r2, f"recipe2/{sname}/B", s, [B], ['B'], before, after)
+        check(r2, f"recipe2/{sname}/P+B", s, [P1, B], ['P', 'B'], before, after)
 
 
 def amount_in(obj, s):
